@@ -203,13 +203,16 @@ std::string opMt(const std::vector<std::string>& w)
     stopClients = true;
     if (mid) for (auto& t : ts) t.join();
     const size_t tablesSeen = srv.tables();
+    // all framework threads terminate after shutdown() — before the endpoint is destroyed (its destructor shuts down once more)
+    int tasksAfterShutdown = tasksBefore;
+    for (int i = 0; i < 150; ++i) { tasksAfterShutdown = countTasks(); if (tasksAfterShutdown <= tasksBefore) break; std::this_thread::sleep_for(std::chrono::milliseconds(10)); }
     srv.ep.reset();
     int tasksAfter = tasksBefore;
     for (int i = 0; i < 100; ++i) { tasksAfter = countTasks(); if (tasksAfter <= tasksBefore) break; std::this_thread::sleep_for(std::chrono::milliseconds(10)); }
     int total = clients * reqs;
     size_t tablesAfter = tablesSeen;
     std::string out = "total=" + std::to_string(total) + " answered=" + std::string(bad == 0 ? "all-own" : "wrong") + " bad=" + std::to_string(bad.load())
-        + " shutdown=" + (shutdownMs < 5000 ? "ok" : "slow") + " acceptor=" + (stillServing ? "alive" : "stopped") + " threads=" + std::to_string(tasksAfter - tasksBefore) + " tables=" + std::to_string(tablesAfter);
+        + " shutdown=" + (shutdownMs < 5000 ? "ok" : "slow") + " acceptor=" + (stillServing ? "alive" : "stopped")  + " sdthreads=" + std::to_string(tasksAfterShutdown - tasksBefore) + " threads=" + std::to_string(tasksAfter - tasksBefore) + " tables=" + std::to_string(tablesAfter);
     if (!mid && missing != 0) out += " missing=" + std::to_string(missing.load());
     if (!firstBad.empty()) out += " first=" + toHex(firstBad);
     return out;
